@@ -23,12 +23,14 @@ def meta_like(t):
     tpl = '{++X++}{--X--}{>>[Chg:00] %s\n[Chg:00] %s<<}{==X==}' % (E.AUTHOR, E.AUTHOR)
     return re.sub(r'\d', '0', t) in tpl or re.sub(r'\d', '0', t) in tpl.replace('00', '0') or re.sub(r'\d', '0', t) in tpl.replace('00', '000')
 def block_text(n): return bool(re.search(r'[\r\n]', n)) or bool(re.match(r'#+ ', n))
-def classify(c, fail, exception_ok=False, meta_region=False, block_region=False):
+def classify(c, fail, exception_ok=False, meta_region=False, block_region=False, placement=False):
     """-> (fail, known) per the model's Outside code for this input"""
     if not fail: return (None, None)
     code = c.get('outside', 0)
     if code == 0 and c.get('nn', 0) > 0:      # the batch went through the nested-insertion shortcut (modelled; C01's documented exception, finding D26 elsewhere)
         return (None, None) if exception_ok else (fail, ('D26', WHAT['D26']))
+    if code == 0 and c.get('xp', 0) > 0 and placement:      # a deletion / modification whose resolved runs lie in several paragraphs (modelled; the paragraph mark between them cannot be deleted, so what the PLACEMENT oracles of C02/C03/C08/C12/C15 expect is not produced: finding D30; every other oracle applies)
+        return (fail, ('D30', WHAT['D30']))
     if code == 0:
         if block_region and any(block_text(e[1]) for e in c.get('edits', [])): return (fail, ('D10', WHAT['D10']))
         return (fail, None)
@@ -53,8 +55,8 @@ def conflicting(c, raw, clean):
 def judge_C01(c, raw, clean, raw_out): return [classify(c, E.oracle_C01(c), exception_ok=True)]
 def judge_C02(c, raw, clean, raw_out):
     f, applicable = E.oracle_C02(c, raw, clean)
-    if f and c.get('outside', 0) == 0 and not c.get('nn') and in_virtual(c, raw): return [(f, ('D40', WHAT['D40']))]
-    return [classify(c, f, meta_region=True)]
+    if f and c.get('outside', 0) == 0 and not c.get('nn') and not c.get('xp') and in_virtual(c, raw): return [(f, ('D40', WHAT['D40']))]
+    return [classify(c, f, meta_region=True, placement=True)]
 def deleted_uids(din):
     out = set()
     def go(nodes, dead):
@@ -92,9 +94,9 @@ def in_virtual(c, raw):
     return False
 def judge_C08(c, raw, clean, raw_out):
     f = E.oracle_C08(c)
-    if f and c.get('outside', 0) == 0 and 'subset' in f and in_virtual(c, raw): return [(f, ('D40', WHAT['D40']))]
+    if f and c.get('outside', 0) == 0 and not c.get('xp') and 'subset' in f and in_virtual(c, raw): return [(f, ('D40', WHAT['D40']))]
     if f and c.get('outside', 0) == 0 and 'subset' in f and conflicting(c, raw, clean) and any(e[0] and raw.count(e[0]) == 0 for e in c['edits']): return [(f, ('D51', WHAT['D51']))]
-    return [classify(c, f, meta_region=True)]
+    return [classify(c, f, meta_region=True, placement=True)]
 def judge_C09(c, raw, clean, raw_out): return [classify(c, E.oracle_C09(c))]
 def emptied_story(c):
     """some edit deletes the whole accepted text of a story of the input"""
